@@ -253,6 +253,34 @@ pub fn clear_and_clone<const N: usize>(world_level: bool) {
     std::mem::forget(c);
 }
 
+/// The clone's pending events alone (a light harness whose counterexamples can be replayed): from
+/// an arbitrary state with an arbitrary history of pending created / destroyed events — pending
+/// logs that are NOT the list of live rows: cleared earlier, or holding destroyed entities — the
+/// clone reports exactly the same pending events, at archetype and at world level.
+pub fn clone_events<const N: usize>() {
+    let (world, _m) = state_with_history_opt::<N>(None);
+    let (c0, nc0, d0, nd0) = logs::<4>(&world);
+    let c = world.clone();
+    let (cc, ncc, dc, ndc) = logs::<4>(&c);
+    assert!(ncc == nc0, "clone has another number of pending created-events");
+    assert!(ndc == nd0, "clone has another number of pending destroyed-events");
+    let mut i = 0;
+    while i < 4 {
+        if i < nc0 {
+            assert!(cc[i] == c0[i], "clone has other pending created-events");
+        }
+        if i < nd0 {
+            assert!(dc[i] == d0[i], "clone has other pending destroyed-events");
+        }
+        i += 1;
+    }
+    assert!(c.iter_created().count() == nc0 && c.iter_destroyed().count() == nd0, "world-level iterators of the clone");
+    cover!(nc0 == 0 && c.arch_one.len() > 0, "live entities but no pending created-event (cleared earlier)");
+    cover!(nd0 > 0, "pending destroyed-events");
+    std::mem::forget(world);
+    std::mem::forget(c);
+}
+
 /// World-level iterators over three archetypes with symbolic log lengths 0..=2 each
 /// (including empty logs at the front, in the middle and at the end): exactly the
 /// concatenation, exact size_hint at every position.
@@ -474,6 +502,7 @@ harness! { fn c17_delta_reads_2() unwind(8) { log_delta::<2>(8) } }
 harness! { fn c17_iter_destroy_2() unwind(7) { log_iter_destroy::<2>() } }
 harness! { fn c17_clear_arch_clone_2() unwind(6) { clear_and_clone::<2>(false) } }
 harness! { fn c17_clear_world_clone_1() unwind(6) { clear_and_clone::<1>(true) } }
+harness! { fn c17_clone_events_2() unwind(6) { clone_events::<2>() } }
 harness! { fn c17_world_iter_created() unwind(9) { world_iterators(false) } }
 harness! { fn c17_world_iter_destroyed() unwind(9) { world_iterators(true) } }
 harness! { fn c17_world_iter_nth_created() unwind(9) { world_iterator_methods::<0>(false) } }
